@@ -981,12 +981,16 @@ func (r *RIB) canResolve(netInst string, candidate *aft.RIB) (bool, error) {
 		if len(g.NextHop) == 0 {
 			return false, fmt.Errorf("empty next-hop-group")
 		}
+		// Check the validity of every next-hop before whether any is missing, g.NextHop
+		// is a map so the order in which the next-hops are visited is not defined.
 		for _, n := range g.NextHop {
 			// Zero is an invalid value for a next-hop index. GetIndex() will also return 0
 			// if the NH index is nil, which is also invalid - so handle them together.
 			if n.GetIndex() == 0 {
 				return false, fmt.Errorf("invalid zero index NH in NHG %d, NI %s", g.GetId(), netInst)
 			}
+		}
+		for _, n := range g.NextHop {
 			// nexthops are resolved in the same NI as the next-hop-group
 			if _, ok := niRIB.GetNextHop(n.GetIndex()); !ok {
 				// this is not an error - it's just that we can't resolve this seemingly
